@@ -41,6 +41,8 @@ struct CodeEntry {
     creator: String,
     /// ids with the same class must share the checksum
     class: u64,
+    /// whether the code has a migrate entry point
+    has_migrate: bool,
 }
 
 #[derive(Clone, Debug, PartialEq, Eq, Hash)]
@@ -83,10 +85,49 @@ fn salts() -> Vec<Vec<u8>> {
     vec![vec![0x01], vec![0x02], (0..64).collect(), vec![]]
 }
 
+/// A code without migrate entry point (everything else is the puppet's): migrating TO it must
+/// fail, migrating FROM it to a code that has one must work (the new code's entry point runs).
+struct NoMigrate(Puppet);
+
+impl cw_multi_test::Contract<Empty, Empty> for NoMigrate {
+    fn execute(&self, deps: cosmwasm_std::DepsMut, env: cosmwasm_std::Env, info: cosmwasm_std::MessageInfo, msg: Vec<u8>) -> cw_multi_test::error::AnyResult<cosmwasm_std::Response> {
+        self.0.execute(deps, env, info, msg)
+    }
+    fn instantiate(&self, deps: cosmwasm_std::DepsMut, env: cosmwasm_std::Env, info: cosmwasm_std::MessageInfo, msg: Vec<u8>) -> cw_multi_test::error::AnyResult<cosmwasm_std::Response> {
+        self.0.instantiate(deps, env, info, msg)
+    }
+    fn query(&self, deps: cosmwasm_std::Deps, env: cosmwasm_std::Env, msg: Vec<u8>) -> cw_multi_test::error::AnyResult<Binary> {
+        self.0.query(deps, env, msg)
+    }
+    fn sudo(&self, deps: cosmwasm_std::DepsMut, env: cosmwasm_std::Env, msg: Vec<u8>) -> cw_multi_test::error::AnyResult<cosmwasm_std::Response> {
+        self.0.sudo(deps, env, msg)
+    }
+    fn reply(&self, deps: cosmwasm_std::DepsMut, env: cosmwasm_std::Env, msg: cosmwasm_std::Reply) -> cw_multi_test::error::AnyResult<cosmwasm_std::Response> {
+        self.0.reply(deps, env, msg)
+    }
+    fn migrate(&self, _deps: cosmwasm_std::DepsMut, _env: cosmwasm_std::Env, _msg: Vec<u8>) -> cw_multi_test::error::AnyResult<cosmwasm_std::Response> {
+        anyhow::bail!("migrate is not implemented for this code")
+    }
+}
+
+/// every third registry operation stores a code without migrate entry point
+fn lacks_migrate(reg_index: usize) -> bool {
+    reg_index % 3 == 1
+}
+
+fn code_for(reg_index: usize) -> Box<dyn cw_multi_test::Contract<Empty, Empty>> {
+    let p = Puppet { tag: (reg_index % 250) as u8 };
+    if lacks_migrate(reg_index) {
+        Box::new(NoMigrate(p))
+    } else {
+        Box::new(p)
+    }
+}
+
 fn build_app(reg_ops: &[ROp], storage: &SnapStorage, nm: &Names) -> RApp {
     let mut app: RApp = AppBuilder::new().with_storage(SnapStorage::new()).build(cw_multi_test::no_init);
     for (i, o) in reg_ops.iter().enumerate() {
-        let code = Box::new(Puppet { tag: (i % 250) as u8 });
+        let code = code_for(i);
         match o {
             ROp::Store => {
                 app.store_code(code);
@@ -176,7 +217,8 @@ fn step(ctx: &Ctx, st: &RState, op: &ROp, nm: &Names, shared: &Shared) -> StepOu
             match first {
                 // who may migrate a contract without admin is C12's business: outcome not asserted here
                 Some(c) if c.admin.is_none() => Exp::NotAsserted,
-                Some(_) => Exp::Migrate(if model.codes.contains_key(code) { Ok(()) } else { Err(()) }),
+                // the migrate entry point that runs is the one of the code migrated TO
+                Some(_) => Exp::Migrate(if model.codes.get(code).map_or(false, |c| c.has_migrate) { Ok(()) } else { Err(()) }),
                 None => Exp::Migrate(Err(())),
             }
         }
@@ -186,9 +228,9 @@ fn step(ctx: &Ctx, st: &RState, op: &ROp, nm: &Names, shared: &Shared) -> StepOu
     set_script(init_program(true));
     let mut new_addr: Option<String> = None;
     let run: Result<Result<u64, String>, String> = catch(|| match op {
-        ROp::Store => Ok(app.store_code(Box::new(Puppet { tag: 0 }))),
-        ROp::StoreCreator(c) => Ok(app.store_code_with_creator(Addr::unchecked(&nm.creators[*c as usize]), Box::new(Puppet { tag: 0 }))),
-        ROp::StoreId(id) => app.store_code_with_id(Addr::unchecked(&nm.creators[0]), *id, Box::new(Puppet { tag: 0 })).map_err(|e| format!("{:#}", e)),
+        ROp::Store => Ok(app.store_code(code_for(st.reg_ops.len()))),
+        ROp::StoreCreator(c) => Ok(app.store_code_with_creator(Addr::unchecked(&nm.creators[*c as usize]), code_for(st.reg_ops.len()))),
+        ROp::StoreId(id) => app.store_code_with_id(Addr::unchecked(&nm.creators[0]), *id, code_for(st.reg_ops.len())).map_err(|e| format!("{:#}", e)),
         ROp::Dup(id) => app.duplicate_code(*id).map_err(|e| format!("{:#}", e)),
         ROp::Inst { code, creator, variant, ok } => {
             set_script(init_program(*ok));
@@ -266,9 +308,9 @@ fn step(ctx: &Ctx, st: &RState, op: &ROp, nm: &Names, shared: &Shared) -> StepOu
                 ctx.violation("c11:code-id-not-unique", case("returned id already in use", json!({"got": got})));
             }
             let entry = match op {
-                ROp::Store => CodeEntry { creator: nm.default_creator.clone(), class: *got },
-                ROp::StoreCreator(c) => CodeEntry { creator: nm.creators[*c as usize].clone(), class: *got },
-                ROp::StoreId(_) => CodeEntry { creator: nm.creators[0].clone(), class: *got },
+                ROp::Store => CodeEntry { creator: nm.default_creator.clone(), class: *got, has_migrate: !lacks_migrate(st.reg_ops.len()) },
+                ROp::StoreCreator(c) => CodeEntry { creator: nm.creators[*c as usize].clone(), class: *got, has_migrate: !lacks_migrate(st.reg_ops.len()) },
+                ROp::StoreId(_) => CodeEntry { creator: nm.creators[0].clone(), class: *got, has_migrate: !lacks_migrate(st.reg_ops.len()) },
                 ROp::Dup(src) => model.codes[src].clone(),
                 _ => unreachable!(),
             };
